@@ -942,12 +942,20 @@ class SymNP:
         return SymNP.where(SymNP.asarray(a))[0]
 
     @staticmethod
-    def logical_and(a, b):
-        return SymNP.asarray(a) & b
+    def logical_and(a, b, out=None):
+        r = SymNP.asarray(a) & b
+        if out is not None:
+            out[:] = r
+            return out
+        return r
 
     @staticmethod
-    def logical_or(a, b):
-        return SymNP.asarray(a) | b
+    def logical_or(a, b, out=None):
+        r = SymNP.asarray(a) | b
+        if out is not None:
+            out[:] = r
+            return out
+        return r
 
     @staticmethod
     def logical_not(a):
